@@ -53,6 +53,40 @@ theorem type_shape {fr to : Sp} {d : Dims} (h : mkDims fr to = .ok d) :
         · cases h
           refine ⟨?_, ?_, ?_, ?_⟩ <;> simp [Dims.shape] <;> (split <;> simp)
 
+/-- … and conversely the type is decided by the sizes of the two sides alone, however a side of
+size 1 is written down (the field, `[1]`, `[1, 1]`, with or without the tidy-up of all-1 spaces). -/
+theorem shape_type {fr to : Sp} {d : Dims} (h : mkDims fr to = .ok d) :
+    (d.shape = (1, 1) → d.type = "scalar") ∧
+    (d.shape.2 = 1 → d.shape.1 ≠ 1 → d.type = "ket" ∨ d.type = "operator-ket") ∧
+    (d.shape.1 = 1 → d.shape.2 ≠ 1 → d.type = "bra" ∨ d.type = "operator-bra") ∧
+    (d.shape.1 ≠ 1 → d.shape.2 ≠ 1 → d.type = "oper" ∨ d.type = "super") := by
+  unfold mkDims at h
+  by_cases h1 : fr.size = 1
+  · by_cases h2 : to.size = 1
+    · simp only [h1, h2, BEq.rfl, Bool.and_self, if_true] at h
+      cases h
+      simp [Dims.shape, h1, h2]
+    · have e : (to.size == 1) = false := by simpa using h2
+      simp only [h1, e, BEq.rfl, Bool.true_and, Bool.false_eq_true, if_false, if_true] at h
+      cases h
+      refine ⟨?_, ?_, ?_, ?_⟩ <;> simp [Dims.shape, h1, h2] <;> (split <;> simp)
+  · have e1' : (fr.size == 1) = false := by simpa using h1
+    by_cases h2 : to.size = 1
+    · simp only [e1', h2, Bool.false_and, Bool.false_eq_true, if_false, BEq.rfl, if_true] at h
+      cases h
+      refine ⟨?_, ?_, ?_, ?_⟩ <;> simp [Dims.shape, h1, h2] <;> (split <;> simp)
+    · have e2' : (to.size == 1) = false := by simpa using h2
+      simp only [e1', e2', Bool.false_and, Bool.false_eq_true, if_false] at h
+      by_cases h3 : Sp.beq fr to = true
+      · simp only [h3, if_true] at h
+        cases h
+        refine ⟨?_, ?_, ?_, ?_⟩ <;> simp [Dims.shape, h1, h2] <;> (split <;> simp)
+      · simp only [h3, Bool.false_eq_true, if_false] at h
+        split at h
+        · cases h
+        · cases h
+          refine ⟨?_, ?_, ?_, ?_⟩ <;> simp [Dims.shape, h1, h2] <;> (split <;> simp)
+
 /-- `a @ b` is defined only when the input space of `a` *is* the output space of `b` … -/
 theorem matmul_requires_equal_spaces (a b d : Dims) (h : a.matmul b = .ok d) : Sp.beq a.fr b.to = true := by
   unfold Dims.matmul at h
